@@ -72,8 +72,8 @@ P = {
 }
 # generators added after the fourth round of independently seeded changes (DESIGN.md 8.4 (v))
 ADD = {
- "C14": "Tracks filled through a composition are augmented in turn (the others must not move); tuned from_chords tracks are augmented (each entry rises exactly once). from_chords is applied to tracks in every key: opened bars inherit key and meter. selected_tracks may hold indices written from the end. from_chords runs with every instrument kind and with generic instruments narrowed by set_range (the first out-of-range chord raises the range error and is not placed). Objects shared between tracks of a composition are found by identity (only objects the caller handed in may sit in two tracks). Composition equality follows the contents: a separately built composition with equal tracks is equal; one entry different or one track less is not. Tuned from_chords with repeated chord names is enumerated (each entry rises exactly once).",
- "C12": "The from_* constructors are also applied to used containers, to slash chords over their own notes and to polychords of chords that share notes.",
+ "C14": "Tracks filled through a composition are augmented in turn (the others must not move); tuned from_chords tracks are augmented (each entry rises exactly once). from_chords is applied to tracks in every key: opened bars inherit key and meter. selected_tracks may hold indices written from the end. from_chords runs with every instrument kind and with generic instruments narrowed by set_range (the first out-of-range chord raises the range error and is not placed). Objects shared between tracks of a composition are found by identity (only objects the caller handed in may sit in two tracks). Composition equality follows the contents: a separately built composition with equal tracks is equal; one entry different or one track less is not. Tuned from_chords with repeated chord names is enumerated (each entry rises exactly once). Rests written as empty containers go through add_notes and '+' with every instrument kind; != is asked both ways round.",
+ "C12": "The from_* constructors are also applied to used containers, to slash chords over their own notes and to polychords of chords that share notes. Neighbours whose octave numbers and pitch order disagree (Cb-5 / B#-4) go through every removal form.",
  "C06": "Malformed parts are also embedded inside polychords. The empty chord is also the lower part of slash chords (own-root basses included). The empty string and empty slash / polychord parts ('', 'C/', 'C|', '||', ...) are enumerated and generated as malformed text.",
  "C05": "Recognition questions of 8-30 entries with repeats are sampled. Each instance is checked after scales of the same kind and tonic over other octave counts were asked; recognition is asked with lists, tuples, sets, iterators and generators. Diatonic positions are also written in descending order.",
  "C03": "Before each from_shorthand question, respellings of the same pitch and all 17 named constructors on the same root are asked (both orders). intervals.determine is also called with keyword arguments in both orders. Naming questions on unisons going down and up precede every question. Shorthands with one sharp and one flat (either order) are enumerated on every name with up to two accidentals.",
@@ -82,11 +82,11 @@ ADD = {
  "C04": "Integers of hundreds to tens of thousands of digits are among the out-of-range signature numbers. Every diatonic question is preceded by the questions whose note + key concatenation reads the same; unknown keys are given to the step functions twice in a row. The key memo is also filled minors-first and minors-only before unknown keys are offered; keys.major_keys / minor_keys are compared with the key table. Every Key is copied (copy, deepcopy, pickle) while another Key is held; get_key is given numpy integer types. Rejected calls to the other theory modules precede every key check. The empty string is offered to Key() like every other candidate key. The published key tables may be lists or tuples.",
  "C07": "The library's inversion helpers are compared with list slicing for chords of every size. Long names are formed with the library's own meaning table.",
  "C08": "Every attribute name of the theory modules and Hypothesis ASCII text serve as unrecognised numerals. Every depth-0 substitution result is fed to all rules again and the general substitute's diminished substitutes must cycle by minor thirds. The recursion relation of substitute is compared as a collection of distinct answers.",
- "C09": "Integer beat units reach 2^5000. The numbers of 6-12 dotted values (within 1% of an undotted value) are analysed; the named base values and the module's base / tuplet tables are compared with the vocabulary. Every vocabulary value is also analysed as an exact Fraction.",
- "C10": "Comparison pairs also carry their own velocity and channel (half of them of equal pitch). The frequency of every spelling is compared with the pitch-number formula at three standard pitches; .name / .octave are assigned directly after the number was read. One frequency is read under four standard pitches in a row. One Note object reads walks of detuned neighbouring pitches. Integer and copy constructors are combined with out-of-range velocity / channel. Exact harmonics (1-16) of seven standard pitches are read back. A dynamics dict and a keyword are given together (both orders, constructor and set_note, in and out of range).",
- "C11": "Generated tracks contain chords in non-ascending order and entries held in a user subclass of NoteContainer. change_octave / octave_up / octave_down also start from octaves below 0 reached by transposition. The octave clamp is exercised on all 35 names plus triple accidentals. Tracks with notes at the edge of an attached instrument's range are transposed beyond it. Octave changes and entry replacements happen between track-level operations; up / octave_up / down on one Note.",
- "C13": "place_notes_at is also given its beat as an int, including whole-number beats where no entry starts. Every ordered pair of meters is applied to one Bar object; empty lists and empty containers are placed as content. Bars filled to within 1/1344 of their length are followed by remove-last and exact refills. Runs of sounding entries shorter than a 128th are built and notes added at the beat of one of them. The identity current beat + space left = length is asserted in every meter, the unbounded one (length 0) included. Every accepted meter (units up to 2**39) yields a fresh and an emptied bar that must not be full.",
- "C15": "Frequency lookups cover the top of the table and everything above it; notes returned by fft.find_notes are modified between calls; sibling scripts edit the lists / dictionaries instances hold in place (14 classes incl. the percussion instrument). Nested [name, octave(, dynamics)] argument items are compared deeply. Instrument ranges are set from note strings (list and tuple) in the sibling scripts and the argument checks. Sequencer play calls get the caller's channel list (percussion tracks included) among the argument checks. One text note given to 2-3 selected tracks of a composition, then eight kinds of in-place edit of one track: the other tracks must not move. The entries one from_chords call builds (with / without tuning, repeated names) must not share container or note objects, and editing one in place must leave the others alone.",
+ "C09": "Integer beat units reach 2^5000. The numbers of 6-12 dotted values (within 1% of an undotted value) are analysed; the named base values and the module's base / tuplet tables are compared with the vocabulary. Every vocabulary value is also analysed as an exact Fraction. Every whole number 1..400 (int and float) is judged against the one recognised value whose 1% window it lies in.",
+ "C10": "Comparison pairs also carry their own velocity and channel (half of them of equal pitch). The frequency of every spelling is compared with the pitch-number formula at three standard pitches; .name / .octave are assigned directly after the number was read. One frequency is read under four standard pitches in a row. One Note object reads walks of detuned neighbouring pitches. Integer and copy constructors are combined with out-of-range velocity / channel. Exact harmonics (1-16) of seven standard pitches are read back. A dynamics dict and a keyword are given together (both orders, constructor and set_note, in and out of range). One attribute given twice in a call (dict and keyword); the integer constructor with legal dynamics keeps its pitch.",
+ "C11": "Generated tracks contain chords in non-ascending order and entries held in a user subclass of NoteContainer. change_octave / octave_up / octave_down also start from octaves below 0 reached by transposition. The octave clamp is exercised on all 35 names plus triple accidentals. Tracks with notes at the edge of an attached instrument's range are transposed beyond it. Octave changes and entry replacements happen between track-level operations; up / octave_up / down on one Note. Note-level transposition also starts at octaves -1..-3 and goes down from octave 0.",
+ "C13": "place_notes_at is also given its beat as an int, including whole-number beats where no entry starts. Every ordered pair of meters is applied to one Bar object; empty lists and empty containers are placed as content. Bars filled to within 1/1344 of their length are followed by remove-last and exact refills. Runs of sounding entries shorter than a 128th are built and notes added at the beat of one of them. The identity current beat + space left = length is asserted in every meter, the unbounded one (length 0) included. Every accepted meter (units up to 2**39) yields a fresh and an emptied bar that must not be full. Meters with beat units 256..4096 are filled beat by beat with '+' and place_notes to exact capacity.",
+ "C15": "Frequency lookups cover the top of the table and everything above it; notes returned by fft.find_notes are modified between calls; sibling scripts edit the lists / dictionaries instances hold in place (14 classes incl. the percussion instrument). Nested [name, octave(, dynamics)] argument items are compared deeply. Instrument ranges are set from note strings (list and tuple) in the sibling scripts and the argument checks. Sequencer play calls get the caller's channel list (percussion tracks included) among the argument checks. One text note given to 2-3 selected tracks of a composition, then eight kinds of in-place edit of one track: the other tracks must not move. The entries one from_chords call builds (with / without tuning, repeated names) must not share container or note objects, and editing one in place must leave the others alone. One scale object asked twelve kinds of question in several orders must answer like a fresh object.",
  "C16": "Generated scores also contain zero-bar tracks, sounding entries of 0 or 1 tick, unsorted chords and user subclasses of NoteContainer / MidiInstrument. Note-off events are compared including their velocity. Writers are called positionally, by keyword and with the documented defaults; generated bars may contain twin entries and one container object in two entries. Numbered instruments may be plain Instrument objects carrying instrument_nr. Names may contain NUL and control characters. Tracks may be on a MidiPercussionInstrument; compositions of 9-300 tracks; a track may end with a Bar object that already stands earlier in it. Bars holding one entry (rest, empty container or note of value 1, 2, 4 or the beat unit) in every meter are enumerated, written once and repeated. The reader decodes running status. Only numerator and denominator of time signatures are compared; annotation meta events are ignored.",
  "C17": "Generated scores also contain zero-bar tracks, unsorted chords and user subclasses; corrupted files include whole-tag swaps (the other chunk tag, foreign tags). MIDI instruments may carry a General MIDI name unrelated to their number; generated bars may contain twin entries and reused container objects. Numbered instruments may be plain Instrument objects carrying instrument_nr. Names may contain NUL and control characters. Tracks may be on a MidiPercussionInstrument; compositions of 9-300 tracks; one Bar object twice in a track. Bars holding one entry in every meter are enumerated.",
  "C18": "Generated music also contains unsorted chords and user subclasses of NoteContainer / MidiInstrument; control changes with non-integer numbers / values just outside 0..128. A second sequencer with its own observer exists during every case and must see nothing; play_Bar / play_Track are called positionally, by keyword and with defaults. Non-MIDI instruments may carry General MIDI names (still program 1). After the first pass the instruments are renamed and the tracks played again. One Bar object may stand twice in a track. Tracks of one-entry bars in every meter are enumerated. The return value is a dict whose bpm entry is the final tempo.",
